@@ -442,10 +442,19 @@ func (f *File) LookupCID(code []byte) CID {
 	// Look for a mapping in this file and then in its ancestors.  Only if
 	// there is none, the notdef entries apply, again starting with this
 	// file's own (LookupNotdefCID walks the parent chain itself).
+	if cid, ok := f.lookupMapped(code); ok {
+		return cid
+	}
+	return f.LookupNotdefCID(code)
+}
+
+// lookupMapped returns the CID which the file or one of its ancestors maps
+// the code to.  The notdef entries are not consulted.
+func (f *File) lookupMapped(code []byte) (CID, bool) {
 	for g := f; g != nil; g = g.Parent {
 		for _, s := range g.CIDSingles {
 			if bytes.Equal(s.Code, code) {
-				return s.Value
+				return s.Value, true
 			}
 		}
 
@@ -454,11 +463,10 @@ func (f *File) LookupCID(code []byte) CID {
 			if !ok {
 				continue
 			}
-			return r.Value + CID(index)
+			return r.Value + CID(index), true
 		}
 	}
-
-	return f.LookupNotdefCID(code)
+	return 0, false
 }
 
 func (f *File) LookupNotdefCID(code []byte) CID {
